@@ -52,6 +52,10 @@
 (*                     equation.  The periods k >= 1 see registered functions, the    *)
 (*                     time-zero passes (3 and 4 alike) do not: there `uf` is an      *)
 (*                     unknown name and the equation is stepped over.                 *)
+(*   abs    u          `x = abs(u)`  a BUILTIN / math function: its name is a token of *)
+(*                     the equation too, but it is a name every evaluation knows -    *)
+(*                     the time-zero passes 3 and 4 included: a time-zero constant    *)
+(*                     written with a function is a time-zero constant.               *)
 (*   prod u v  `x = u * v`    quo u v  `x = u / v`  (divisor; systems in which the    *)
 (*                     divisor is 0 in some period k >= 1 are not generated - at k = 0 *)
 (*                     it may be, see Close mode "zero"; the spec reads               *)
@@ -96,6 +100,7 @@ Poison == -2000000011   \* value of a name that cannot be evaluated (never read;
 TimeVar == "t"
 K == "k"
 FnName == "uf"
+GlobalNames == {"abs"}      \* names of the solver module's globals / builtins: tokens, never unknown
 
 D(kind, u, v, n, p) == [kind |-> kind, u |-> u, v |-> v, n |-> n, p |-> p]
 TimeDef == D("time", "", "", 0, << >>)
@@ -110,6 +115,7 @@ Names(d) ==
       [] d.kind = "lag"                        -> {d.u, K}
       [] d.kind = "time"                       -> {K}
       [] d.kind = "fn"                         -> {d.u, FnName}
+      [] d.kind = "abs"                        -> {d.u, "abs"}
       [] OTHER                                 -> {}
 
 (* replace_token(eqn, x, y) *)
@@ -132,6 +138,7 @@ Den(d, val) ==
       [] d.kind \in {"neg", "negs", "negb"} -> 0 - val[d.u]
       [] d.kind = "prod"                -> val[d.u] * val[d.v]
       [] d.kind = "fn"                  -> 2 * val[d.u] + 1
+      [] d.kind = "abs"                 -> Abs(val[d.u])
       [] d.kind = "self"                -> 2 * val[d.v]          \* the fixed point of x = 0.5*x + v
       [] d.kind = "quo"                 -> TruncDiv(val[d.u], val[d.v])
       [] d.kind = "sq"                  -> val[d.u] * val[d.u]
@@ -168,7 +175,7 @@ HasIC(sys, x)  == x \in DOMAIN sys.ics /\ sys.ics[x] # NoIC
 Fails(d, val) == d.kind = "quo" /\ val[d.v] = 0
 RECURSIVE Close(_, _, _, _, _)
 Close(eqs, val, known, fuel, mode) ==
-    LET Needs(i) == IF mode = "sweep" THEN Names(eqs[i].def) \ {eqs[i].var} ELSE Names(eqs[i].def)
+    LET Needs(i) == (IF mode = "sweep" THEN Names(eqs[i].def) \ {eqs[i].var} ELSE Names(eqs[i].def)) \ GlobalNames
         ready == { i \in 1..Len(eqs) : /\ eqs[i].var \notin known
                                        /\ Needs(i) \subseteq known
                                        /\ ~(mode = "zero" /\ Fails(eqs[i].def, val)) }
@@ -257,7 +264,7 @@ WellPosed(sys, alldefs) ==
     LET vars == SysVars(sys)
         base == [x \in vars \cup {K} |-> 0]
         r == Close(sys.endo, base, SeqVars(sys.exo) \cup SeqVars(sys.lagged) \cup {K, FnName}, Len(sys.endo), "sweep")
-    IN /\ \A x \in DOMAIN alldefs : Names(alldefs[x]) \subseteq vars \cup {K, FnName}
+    IN /\ \A x \in DOMAIN alldefs : Names(alldefs[x]) \subseteq vars \cup {K, FnName} \cup GlobalNames
        /\ SeqVars(sys.endo) \subseteq r.known
        /\ (\E x \in DOMAIN alldefs : alldefs[x].kind \in {"sq", "nsq", "prod"}) => sys.lagged = << >>
        \* a self-reference is solved to within the tolerance only: keep the gain of what reads it at <= 2
@@ -406,6 +413,7 @@ Options(i) ==
           \cup { D(kd, u, "", 0, << >>) : kd \in {"neg", "negs", "negb", "sq", "nsq"}, u \in others }
           \cup { D("self", x, v, 0, << >>) : v \in others }
           \cup { D("fn", u, "", 0, << >>) : u \in others }
+          \cup { D("abs", u, "", 0, << >>) : u \in others }
           \cup { D("quo", q[1], q[2], 0, << >>) : q \in { r \in others \X others : r[1] # r[2] } }
           \cup { D("prod", q[1], q[2], 0, << >>) : q \in { r \in others \X others : Idx(r[1]) < Idx(r[2]) } }
           \cup { D("dbl", u, "", 2, << >>) : u \in others }
